@@ -37,14 +37,14 @@ RULE = ('programs of 1-4 equations from random syntax trees (as C20), each rende
 TRUSTED = ['extraction of the parser model to OCaml (ExtrOcamlBasic + ExtrOcamlString only) and coq/Extract/Graph/driver.ml',
            'harness/parser_common.py encoders', "CPython's ast.parse / ast.dump as the meaning of a generated code line"]
 ASSUMPTIONS = ['input strings are Latin-1',
-               'layout lemmas are proved stage by stage, each for all strings: statement splitter (comments, blank lines, independence), '
-               'lexer (blanks inside brackets, [0], +k; one token at a time, any continuation), template normaliser (whitespace runs, '
-               'continuation lines, brackets, idempotence); their composition for whole statements is proved for the fixed-point sentence '
-               '(Props/C14.v C14_normal_form_fixed_point, under the decidable Denorm.dq_ok) and checked by K and O for the other transformations',
-               'that the equations fsic produces satisfy Denorm.dq_ok is checked per case by K_fixed_domain, not proved',
+               'statement-level theorems (fixed point; blanks inside { } < > [ ]; "+" of a lead; explicit [0]; runs of blanks and tabs; '
+               'continuation lines) speak about statements NAME[k] = rhs given as token lists with a layout, under the decidable conditions '
+               'Denorm.dq_ok / dq_ok_ws; that the equations fsic produces are of this form is checked per case by K_fixed_domain, not proved',
+               'script-level theorems (comments, blank lines, statement independence, permutation) are about parse_model itself, for all scripts '
+               'whose blocks end between statements (decidable premises, instances in Props/C14.v)',
                '"meaning of the generated code" = ast.dump(ast.parse(code)) (CPython)',
-               'statement permutation and the merge of per-statement symbol lists are checked by the oracle against a reference merge written '
-               'from the documented rules; only parse = merge(map parse_equation statements) is a theorem']
+               'the oracle compares parse(script) with a reference merge of the statement parses written from the documented rules; the '
+               'theorems are parse = merge(map parse_equation statements) and the order-independence of that merge (C14_statements_permute)']
 EXHAUSTIVE = {'quick': False, 'thorough': False}
 CASE_TIMEOUT = 60
 SOURCES = ['parser.py']
